@@ -6,7 +6,8 @@
    The cached / uncached / coarse-level parts of the property are tied by the correspondence K-matrix
    (coarse caches are copies: checked bitwise against a fresh evaluation on every run). *)
 From Coq Require Import List ZArith Bool Reals.
-From GMGP Require Import Scalar ScalarR InterpDefs StencilDefs StencilProofs StencilProofs2.
+From GMGP Require Import Scalar ScalarR InterpDefs StencilDefs StencilProofs StencilProofs2 StencilTie.
+From GMGPGen Require Import StencilGen.
 Import ListNotations.
 Local Open Scope R_scope.
 
@@ -36,5 +37,37 @@ Theorem C03_coefficients_admissible : forall Jrr Jrt Jtr Jtt alpha : R,
   artJ Jrr Jrt Jtr Jtt alpha ^ 2 <= 4 * arrJ Jrr Jrt Jtr Jtt alpha * attJ Jrr Jrt Jtr Jtt alpha.
 Proof. exact coefficients_admissible. Qed.
 
+(* ---- the tie to the source: translator T3 regenerates gen/StencilGen.v from the two macro bodies on every run ---- *)
+
+(* NODE_APPLY_RESIDUAL_TAKE, as the source says now, performs exactly one write for node (i,j):
+   result[(i,j)] := rhs(i,j) - (row (i,j) of the documented stencil) . x      (every grid size, every coefficient array) *)
+Theorem C03_generated_take_is_documented_stencil :
+  forall (nr nth : Z) (h k rad : Z -> R) (arr att art det : Z -> Z -> R) (beta : Z -> R) (dirbc : bool),
+  (4 <= nr)%Z -> (2 <= nth)%Z ->
+  forall (rhs x : Z -> Z -> R) (i j : Z), (0 <= i < nr)%Z -> (0 <= j < nth)%Z ->
+  @gen_resid_take Rsc nr nth h k rad arr att art det beta dirbc rhs x i j =
+  [ (((i, j), W_result_WAssign),
+     rhs i j - @apply_row2 Rsc (@A_take_row Rsc nr nth h k (rad 0%Z) arr att art det beta dirbc i j) x) ].
+Proof. exact gen_take_is_model. Qed.
+
+(* NODE_APPLY_A_GIVE, as the source says now: for every test vector y the y-weighted sum of what the macro subtracts from
+   `result` for node (i,j) is the bilinear form of that node's scatter block in the model ... *)
+Theorem C03_generated_give_is_model :
+  forall (nr nth : Z) (h k rad : Z -> R) (arr att art det : Z -> Z -> R) (beta : Z -> R) (dirbc : bool),
+  (4 <= nr)%Z -> (2 <= nth)%Z ->
+  forall (x y : Z -> Z -> R) (i j : Z), (0 <= i < nr)%Z -> (0 <= j < nth)%Z ->
+  gen_bil (@gen_apply_a_give Rsc nr nth h k rad arr att art det beta dirbc x i j) y =
+  @bil Rsc nr nth h k (rad 0%Z) arr att art det beta dirbc i j x y.
+Proof. exact gen_give_is_model. Qed.
+
+(* ... and every write of it is a `-=` into `result` *)
+Theorem C03_generated_give_writes_are_sub :
+  forall (nr nth : Z) (h k rad : Z -> R) (arr att art det : Z -> Z -> R) (beta : Z -> R) (dirbc : bool)
+         (x : Z -> Z -> R) (i j : Z),
+  Forall (fun w => snd (fst w) = W_result_WSub) (@gen_apply_a_give Rsc nr nth h k rad arr att art det beta dirbc x i j).
+Proof. exact gen_give_writes_are_sub. Qed.
+
 Print Assumptions C03_give_eq_take.
+Print Assumptions C03_generated_take_is_documented_stencil.
+Print Assumptions C03_generated_give_is_model.
 Print Assumptions C03_dirichlet_rows_identity.
